@@ -63,3 +63,72 @@ def explain(rows, wd, module="Trace_Sem", cfg="Explain_Sem.cfg"):
 
 def slim(row):
     return {k: row[k] for k in ("id", "src", "out", "err", "msg") if k in row}
+
+
+def exprgen(cfg, wd, tag, verdict, workers=8, timeout=3000, compare_messages=False):
+    """G: ExprGen.tla enumerates (operation form x operand shapes x literal/variable x context); TLC
+    computes every case's transcript and outcome kind with Sem.tla; the sessions are replayed on the
+    real evaluator and compared chunk by chunk.  Returns a statistics dict."""
+    g = C.run_tlc("ExprGen", cfg, name="exprgen_" + tag, workers=workers, timeout=timeout, coverage=False, tlc_seed=C.seed())
+    sessions = [json.loads(x) for x in C.tlc_prints(g.out, "CASE")]
+    if len(sessions) * 2 != g.distinct or not sessions:
+        raise C.ToolError("ExprGen %s: %d sessions for %d states" % (cfg, len(sessions), g.distinct))
+    sp, so = os.path.join(wd, "expr_%s.ndjson" % tag), os.path.join(wd, "expr_%s_out.ndjson" % tag)
+    C.ndjson_write(sp, [{"id": "e%d" % i, "chunks": c["chunks"]} for i, c in enumerate(sessions)])
+    C.run_vh(["replay", "sess", sp, so], timeout=timeout)
+    outs = {o["id"]: o for o in C.ndjson_read(so)}
+    st = {"sessions": len(sessions), "cases": 0, "skipped": 0, "bad": 0, "states": g.distinct, "kinds": {}, "forms": set(), "sample": None}
+    for i, c in enumerate(sessions):
+        o = outs.get("e%d" % i)
+        st["forms"].add((c["ar"], c["f"]))
+        if o is None or o["status"] != "ok":
+            verdict.disagree({"engine": "X", "kind": "panic", "arity": c["ar"], "form": c["f"]},
+                             {"form": [c["ar"], c["f"]], "operand": c["a"], "what": (o or {}).get("what")})
+            st["bad"] += 1
+            continue
+        if o["res"][0]["kind"]:
+            raise C.ToolError("ExprGen prelude failed on the real evaluator: %s" % o["res"][0])
+        for j in range(1, len(c["res"])):
+            exp, got = c["res"][j], o["res"][j]
+            st["cases"] += 1
+            if exp["kind"] == "spec_domain":
+                st["skipped"] += 1
+                continue
+            st["kinds"][exp["kind"]] = st["kinds"].get(exp["kind"], 0) + 1
+            if st["sample"] is None and not exp["kind"] and j > 40:
+                st["sample"] = {"src": got["src"], "out": got["out"], "kind": got["kind"]}
+            if got["kind"] == exp["kind"] and json.dumps(got["out"], sort_keys=True) == json.dumps(exp["out"], sort_keys=True):
+                continue
+            st["bad"] += 1
+            b, md, ctx = c["tags"][j - 1]
+            what = "panic" if got["kind"] == "panic" else "outcome" if got["kind"] != exp["kind"] else "transcript"
+            verdict.disagree({"engine": "X", "kind": what, "arity": c["ar"], "form": c["f"], "written": md, "ctx": ctx,
+                              "sem": exp["kind"] or "ok", "real": got["kind"] or "ok"},
+                             {"program": {"src": got["src"], "out": got["out"], "err": {"kind": got["kind"], "line": got.get("line", 0)}, "msg": got.get("msg", "")},
+                              "sem": {"out": exp["out"], "err": {"kind": exp["kind"], "line": 0}}, "form": [c["ar"], c["f"]], "operands": [c["a"], b]})
+    st["message_groups"] = 0
+    st["message_differences"] = 0
+    if compare_messages:
+        # the same case written with literals / variables / mixed must fail with the same message text
+        for i, c in enumerate(sessions):
+            o = outs.get("e%d" % i)
+            if o is None or o["status"] != "ok":
+                continue
+            groups = {}
+            for j in range(1, len(c["res"])):
+                b, md, ctx = c["tags"][j - 1]
+                if c["res"][j]["kind"] != "spec_domain":
+                    groups.setdefault((b, ctx), {})[md] = (o["res"][j]["kind"], o["res"][j].get("msg", ""), o["res"][j]["src"])
+            for (b, ctx), g in groups.items():
+                if len(g) < 2:
+                    continue
+                st["message_groups"] += 1
+                if len({(k, m) for k, m, _ in g.values()}) > 1:
+                    st["message_differences"] += 1
+                    verdict.disagree({"engine": "X", "kind": "message", "arity": c["ar"], "form": c["f"], "ctx": ctx},
+                                     {"form": [c["ar"], c["f"]], "operands": [c["a"], b],
+                                      "spellings": {md: {"src": v[2], "kind": v[0], "msg": v[1]} for md, v in g.items()}})
+    st["forms"] = len(st["forms"])
+    if st["cases"] - st["skipped"] < st["cases"] // 2:
+        raise C.ToolError("ExprGen: too many cases outside Sem's domain: %s" % st)
+    return st
